@@ -24,4 +24,20 @@ def neverNil : Kind → List Field
 the incomplete behaviour). -/
 def walkIncomplete : List Kind := [.kCall, .kFunc]
 
+/-- identifier children that are names of declarations (function name, parameter and result
+names, import name): the grammar has no parentheses there, so the parser never gives them a
+parenthesis count, and a clone case may copy them by hand (name and position only).
+(`go/props/c28` fails the correspondence "never-parenthesised" if a parsed tree has a
+parenthesised node there.) -/
+def neverParenthesised : Kind → List Field
+  | .kFunc => [.fIdent]
+  | .kFuncType => [.fParameters_Ident, .fResult_Ident]
+  | .kImport => [.fIdent]
+  | _ => []
+
+/-- node kinds whose constructor takes no position: `ast.NewTree` gives every tree the position
+1:1, `ast.NewPlaceholder` none; their clone arm cannot (and need not) copy one. The harness
+compares the positions of original and copy on every tree anyway. -/
+def ctorPosition : List Kind := [.kTree, .kPlaceholder]
+
 end ScriggoV.Spec.AstAssumptions
